@@ -181,12 +181,21 @@ Definition clique_ops (wn : Q) (pins : list (Z * Q)) : list pinop :=
   pair_ops (fun pi pj => mkOp (fst pi) (fst pj) (snd pi) (snd pj) w) pins.
 Definition add_clique (n : net) (s : sys) : sys := apply_ops (clique_ops (n_weight n) (n_pins n)) s.
 
+(* MatrixCreator::singleCellNet(net) (repair of finding F25): all the pins are on the same cell (or all are fixed) *)
+Definition single_cell (pins : list (Z * Q)) : bool :=
+  match pins with
+  | [] => true
+  | p :: r => forallb (fun q : Z * Q => (fst q =? fst p)%Z) r
+  end.
+(* `nb <= 2 || singleCellNet(net)`: the net is handed to addBipoint, no star point is created *)
+Definition bip_like (pins : list (Z * Q)) : bool := (length pins <=? 2)%nat || single_cell pins.
+
 (* addStar(net), net_model.cpp:470-481 *)
 Definition star_ops (wn : Q) (pins : list (Z * Q)) (c : Z) : list pinop :=
   let w := wn / Qnat (length pins) in                                    (* :475 *)
   map (fun p => mkOp (fst p) c (snd p) 0 w) pins.                        (* :477-479 *)
 Definition add_star (n : net) (s : sys) : sys :=
-  if (length (n_pins n) <=? 2)%nat then add_bipoint n s                  (* :472 *)
+  if bip_like (n_pins n) then add_bipoint n s                            (* :472 *)
   else let (c, s1) := add_cell 0 s in apply_ops (star_ops (n_weight n) (n_pins n) c) s1.
 
 (* ---- models built around a placement *)
@@ -274,14 +283,22 @@ Definition add_net_model (m : model) (pl : list Q) (eps : Q) (s : sys) (n : net)
   | B2B => apply_ops (b2b_ops wn pins pl eps) s
   | Clique => apply_ops (clique_pl_ops wn pins pl eps) s
   | Star =>
-    if (length pins <=? 2)%nat then apply_ops (bipoint_pl_ops wn pins pl eps) s          (* :509 *)
+    if bip_like pins then apply_ops (bipoint_pl_ops wn pins pl eps) s                    (* :509 *)
     else let (c, s1) := add_cell (star_pos pins pl) s in                                 (* :515 *)
          apply_ops (star_pl_ops wn pins pl eps c) s1
   | LightStar =>
-    if (length pins <=? 2)%nat then apply_ops (bipoint_pl_ops wn pins pl eps) s          (* :537 *)
+    if bip_like pins then apply_ops (bipoint_pl_ops wn pins pl eps) s                    (* :537 *)
     else let (c, s1) := add_cell (star_pos pins pl) s in                                 (* :543 *)
          apply_ops (lightstar_ops wn pins pl eps c) s1
   end.
+
+(* the Star model BEFORE the repair of finding F25 (a star point also for a net on a single cell): witness only *)
+Definition add_net_star_old (pl : list Q) (eps : Q) (s : sys) (n : net) : sys :=
+  let wn := n_weight n in let pins := n_pins n in
+  if (length pins <=? 2)%nat then apply_ops (bipoint_pl_ops wn pins pl eps) s
+  else let (c, s1) := add_cell (star_pos pins pl) s in apply_ops (star_pl_ops wn pins pl eps c) s1.
+Definition create_star_old (nm : netmodel) (pl : list Q) (eps : Q) : sys :=
+  fold_left (add_net_star_old pl eps) (nm_nets nm) (sys_empty (nm_cells nm)).
 
 (* MatrixCreator::create(topo, pl, epsilon, netModel), net_model.cpp:390-404 *)
 Definition create (m : model) (nm : netmodel) (pl : list Q) (eps : Q) : sys :=
@@ -307,9 +324,34 @@ Definition reg_trips (nz : list bool) : list trip :=
 Definition finalize (s : sys) : sys :=
   mkSys (s_mat s ++ reg_trips (s_nz s)) (s_rhs s) (s_init s) (map (fun _ => true) (s_nz s)).
 
-(* the systems handed to the solver by NetModel::solveStar(params) / solve / solveWithPenalty /
+(* ---- MatrixCreator::normalize() (repair of finding F22), called by solve() between check() and finalize(): the
+   system is multiplied by 2^-e, e = ilogb(max |b_i|) (raised to ilogb(max |A_ij|) - 64), unless b = 0 or e = 0.
+   Over Q the scaling is a multiplication by a power of two; Qilogb is floor(log2 q) for q > 0. *)
+Definition Qpow2 (z : Z) : Q := if (0 <=? z)%Z then inject_Z (2 ^ z) else 1 # Z.to_pos (2 ^ (- z)).
+Definition Qilogb (q : Q) : Z :=
+  let c := (Z.log2 (Qnum q) - Z.log2 (Zpos (Qden q)))%Z in
+  if Qle_bool (Qpow2 c) q then c else (c - 1)%Z.
+(* float m = 0; for (v : l) m = std::max(m, std::abs(v)) *)
+Definition Qmaxabs (l : list Q) : Q := fold_left (fun m v => if Qlt_bool m (Qabs v) then Qabs v else m) l 0.
+Definition norm_exp (s : sys) : option Z :=
+  let maxRhs := Qmaxabs (s_rhs s) in
+  let maxMat := Qmaxabs (map t_val (s_mat s)) in
+  if Qle_bool maxRhs 0 then None
+  else
+    let e := Qilogb maxRhs in
+    let e := if Qle_bool maxMat 0 then e else Z.max e (Qilogb maxMat - 64) in
+    if (e =? 0)%Z then None else Some e.
+Definition scale_sys (k : Q) (s : sys) : sys :=
+  mkSys (map (fun t => mkT (t_row t) (t_col t) (k * t_val t)) (s_mat s)) (map (Qmult k) (s_rhs s)) (s_init s) (s_nz s).
+Definition normalize (s : sys) : sys :=
+  match norm_exp s with None => s | Some e => scale_sys (Qpow2 (- e)) s end.
+
+(* the assembled systems after finalize() (what the solver received before the repair of F22; solver_input below adds
+   normalize()) of NetModel::solveStar(params) / solve / solveWithPenalty /
    solveStar(pl,..) / solveB2B, net_model.cpp:624-681 *)
 Definition system_star0 (nm : netmodel) : sys := finalize (create_star0 nm).
+(* ... and what solve() really hands to Eigen since the repair of F22: finalize after normalize *)
+Definition solver_input (s : sys) : sys := finalize (normalize s).
 Definition system (m : model) (nm : netmodel) (pl : list Q) (eps : Q) : sys := finalize (create m nm pl eps).
 Definition system_penalty (m : model) (nm : netmodel) (pl : list Q) (eps : Q) (tg st : list Q) (cutoff : Q) : sys :=
   finalize (add_penalty pl tg st cutoff (create m nm pl eps)).
@@ -349,7 +391,7 @@ Fixpoint star_energy_from (k : nat) (nets : list net) (x : list Q) : Q :=
   match nets with
   | [] => 0
   | n :: r =>
-    if (length (n_pins n) <=? 2)%nat then
+    if bip_like (n_pins n) then
       match n_pins n with
       | p0 :: p1 :: _ => let d := pin_position p0 x - pin_position p1 x in (n_weight n / 2) * (d * d)
       | _ => 0
